@@ -68,7 +68,7 @@ variable {Name : Type} [DecidableEq Name]
 structure SpecState (Name : Type) where
   tmpl : Option (Template Name)
   store : Store Name
-  objectSets : List (Template Name)
+  objectSets : List (OSet Name)   -- ALL ObjectSets that exist, in whatever lifecycle / deletion state
 
 /-- What is observable after it. -/
 structure DeployObs (Name : Type) where
@@ -78,7 +78,9 @@ structure DeployObs (Name : Type) where
   store : Store Name
 
 /-- Lossless: after a successful reconcile the template decodes — against the slices that exist now — to exactly
-the desired phases, and every slice it references is controlled by the deployment. -/
+the desired phases — the same objects in the same order, each equal to the original IN EVERY FIELD of the
+ObjectSetObject (`Obj` equality covers the fingerprint of collisionProtection / conditionMappings / payload) —,
+and every slice it references is controlled by the deployment. -/
 def lossless (desired : List (List Obj)) (o : DeployObs Name) : Bool :=
   !o.ok ||
   match o.tmpl with
@@ -120,10 +122,11 @@ def sameContentSameName (o : DeployObs Name) : Bool :=
       | _, _ => true
 
 /-- GC safety: every slice that was deleted or disappeared is referenced neither by the template (as it is now)
-nor by any existing ObjectSet, and was in GC scope (carried the owner label). -/
+nor by ANY existing ObjectSet — active, paused, archived in spec, being deleted: as long as the object exists its
+teardown / a rollback needs the slices —, and was in GC scope (carried the owner label). -/
 def gcSafe (s : SpecState Name) (o : DeployObs Name) : Bool :=
   let gone := o.deleted ++ (names s.store).filter fun n => (getSlice o.store n).isNone
-  let referenced := refs (o.tmpl.getD []) ++ s.objectSets.flatMap refs
+  let referenced := refs (o.tmpl.getD []) ++ s.objectSets.flatMap osRefs
   gone.all fun n =>
     !referenced.contains n &&
     match getSlice s.store n with
